@@ -1,5 +1,6 @@
 import MemVerif.Props.C01Ord
 import MemVerif.Props.C19
+import MemVerif.Lemmas.C18
 /-!
 # C02 — `memory_pool` over either intrusive free list: what is returned is aligned, sized and contiguous
 
@@ -130,6 +131,80 @@ theorem C02_ipool_array_elements_partial (cfg : Cfg) (e : EnvS) (ns : Nat) (o : 
   have : (i + 1) * ns ≤ n * ns := Nat.mul_le_mul_right _ hi
   rw [Nat.add_mul] at this
   omega
+
+/-! ### the small node pool -/
+
+/-- every cell the small list cuts out of a block has the form `usable start + i·stride + chunk header + idx·node_size` -/
+theorem smallBlockCells_form (ns : Nat) (b : Blk) (x : Nat) (hx : x ∈ smallBlockCells ns b) :
+    ∃ i idx, x = b.usable.base + i * smallStride ns + chunkOff + idx * ns := by
+  unfold smallBlockCells at hx
+  obtain ⟨c, hc, hxc⟩ := List.mem_flatMap.mp hx
+  unfold Chunk.allCells at hxc
+  obtain ⟨idx, _, rfl⟩ := List.mem_map.mp hxc
+  rw [smallInsertChunks_eq] at hc
+  have hbase : ∃ i, c.base = b.usable.base + i * smallStride ns := by
+    split at hc
+    · rcases List.mem_append.mp hc with h | h
+      · obtain ⟨i, _, rfl⟩ := List.mem_map.mp h; exact ⟨i, rfl⟩
+      · simp only [List.mem_singleton] at h; subst h; exact ⟨_, rfl⟩
+    · obtain ⟨i, _, rfl⟩ := List.mem_map.mp hc; exact ⟨i, rfl⟩
+  obtain ⟨i, hi⟩ := hbase
+  exact ⟨i, idx, by unfold Chunk.cellAt; rw [hi]⟩
+
+/-- the chunk stride keeps the pool's alignment: `alignment_for(ns)` divides it -/
+theorem alignmentFor_dvd_stride (ns : Nat) (h0 : 0 < ns) (hlt : ns < 2 ^ 32) :
+    (alignmentFor (BitVec.ofNat 64 ns)).toNat ∣ smallStride ns := by
+  obtain ⟨d1, d2⟩ := alignmentFor_dvd ns h0 (by omega)
+  rw [smallStride_eq ns (by omega)]
+  generalize (alignmentFor (BitVec.ofNat 64 ns)).toNat = A at d1 d2
+  -- `A` divides 16 and `ns`
+  have hA : A = 1 ∨ A = 2 ∨ A = 4 ∨ A = 8 ∨ A = 16 := by
+    have hle : A ≤ 16 := Nat.le_of_dvd (by decide) d2
+    have key : ∀ a, a ≤ 16 → a ∣ 16 → a = 1 ∨ a = 2 ∨ a = 4 ∨ a = 8 ∨ a = 16 := by decide
+    exact key A hle d2
+  rcases hA with rfl | rfl | rfl | rfl | rfl
+  · exact Nat.one_dvd _
+  · exact Nat.dvd_trans (by decide : 2 ∣ 8) (Nat.dvd_mul_left 8 _)
+  · exact Nat.dvd_trans (by decide : 4 ∣ 8) (Nat.dvd_mul_left 8 _)
+  · exact Nat.dvd_mul_left 8 _
+  · -- `16 ∣ ns`: the unpadded chunk size is already a multiple of 16
+    obtain ⟨q, rfl⟩ := d1
+    refine ⟨2 + 255 * q, ?_⟩
+    omega
+
+/-- **Small node pool: every live node is aligned for the pool's alignment**, in every chunk of every block (the
+chunk stride and the chunk header both keep `alignment_for(node_size)`), for all histories. -/
+theorem C02_smallpool_aligned_partial (cfg : Cfg) (e : EnvS) (ns P : Nat) (g : GPool) (k : Nat)
+    (ops : List POp) (hI : GInvG ns (.small P) g) (hfit : ∀ op ∈ ops, op.Fits ns) (hlt : ns < 2 ^ 32)
+    (henv : EnvOkG (.small P) (g.run cfg e k ops).1.p.arena.used)
+    (halign : ∀ b ∈ (g.run cfg e k ops).1.p.arena.used, 16 ∣ b.base) :
+    ∀ ab ∈ (g.run cfg e k ops).1.live, (alignmentFor (BitVec.ofNat 64 ns)).toNat ∣ ab.1 := by
+  intro ab hab
+  have h := GPool.run_invG cfg e ops g k hI hfit henv
+  have hnsP := h.cell.nsPos
+  have hpos := cellsOf_pos ns ab.2 hnsP
+  have hm : ab.1 ∈ (g.run cfg e k ops).1.p.list.cells ++ liveCells ns (g.run cfg e k ops).1.live :=
+    List.mem_append_right _ (List.mem_flatMap.mpr ⟨ab, hab, run_head_mem _ _ _ hpos⟩)
+  have hm' := h.conserve.subset hm
+  -- the list is the small list with node size `ns`
+  cases hl : (g.run cfg e k ops).1.p.list with
+  | free fl => have := h.objEq; rw [hl] at this; simp [AnyList.obj] at this
+  | ord ol => have := h.objEq; rw [hl] at this; simp [AnyList.obj] at this
+  | small sl =>
+    have hns : sl.ns = ns := by have := h.nsEq; rw [hl] at this; exact this
+    rw [hl] at hm'
+    unfold cellsOfBlocks at hm'
+    obtain ⟨b, hb, hin⟩ := List.mem_flatMap.mp hm'
+    simp only [AnyList.blockCells, hns] at hin
+    obtain ⟨i, idx, hx⟩ := smallBlockCells_form ns b ab.1 hin
+    obtain ⟨d1, d2⟩ := alignmentFor_dvd ns hnsP (by omega)
+    have d3 := alignmentFor_dvd_stride ns hnsP hlt
+    rw [hx]
+    have hub : b.usable.base = b.base + 16 := by unfold Blk.usable; rw [implOff_eq]
+    rw [hub, chunkOff_eq]
+    have h16 : (alignmentFor (BitVec.ofNat 64 ns)).toNat ∣ b.base + 16 := Nat.dvd_add (Nat.dvd_trans d2 (halign b hb)) d2
+    have h32 : (alignmentFor (BitVec.ofNat 64 ns)).toNat ∣ 32 := Nat.dvd_trans d2 (by decide)
+    exact Nat.dvd_add (Nat.dvd_add (Nat.dvd_add h16 (Nat.dvd_mul_left_of_dvd d3 i)) h32) (Nat.dvd_mul_left_of_dvd d1 idx)
 
 /-! ### non-vacuity -/
 
